@@ -202,17 +202,33 @@ def bounded(check, tier, seed):
             s.fail("C15.method", case, d, replay={"kind": "suite", "module": "props.C15", "case": dict(runs=[[t, a] for t, a in runs], order=order)})
     s.done()
     s = Suite(check, "C15.line_boundaries", "splitlines on texts containing each line boundary str recognises (\\r, \\r\\n, \\v, \\f, \\x1c-\\x1e, "
-              "\\x85, U+2028, U+2029)", bound="10 boundaries x 2 keepends")
-    for b in ["\r", "\r\n", "\v", "\f", "\x1c", "\x1d", "\x1e", "\x85", " ", " "]:
-        for keep in (False, True):
-            txt = "a" + b + "b"
-            f = fmtstr(txt, "red")
-            s.case((b, keep), sample=dict(text=txt, keepends=keep))
-            got = [g.s for g in f.splitlines(keep)]
-            if got != txt.splitlines(keep):
-                s.fail("C15.splitlines.boundary", dict(text=txt, keepends=keep, other_boundary=True),
-                       f"splitlines({keep}) gives {got}, str gives {txt.splitlines(keep)}")
+              "\\x85, U+2028, U+2029) alone, doubled, next to a newline, at either end and across a run boundary; a difference from str is the "
+              "recorded finding only while the answer is exactly that of splitting at newline characters alone", bound="10 boundaries x 9 texts x 2 layouts x 2 keepends")
+    for b in ["\r", "\r\n", "\v", "\f", "\x1c", "\x1d", "\x1e", "\x85", "\u2028", "\u2029"]:
+        for txt in ("a" + b + "b", b, "a" + b, b + "a", "a" + b + b + "c", "a" + b + "\nb", "a\n" + b + "b", "a" + b + "b\n", "one" + b + "two" + b):
+            for cut in (None, 1, 2, len(txt) - 1):
+                if cut is not None and not 0 < cut < len(txt):
+                    continue
+                f = fmtstr(txt, "red") if cut is None else FmtStr(Chunk(txt[:cut], {"fg": 34}), Chunk(txt[cut:], {"bg": 41}))
+                for keep in (False, True):
+                    s.case((txt, cut, keep), sample=dict(text=txt, keepends=keep))
+                    try:
+                        got = [g.s for g in f.splitlines(keep)]
+                    except Exception as e:      # noqa: BLE001
+                        s.fail("C15.splitlines.boundary", dict(text=txt, keepends=keep, cut=cut, other_boundary=True, newline_only_answer=False),
+                               f"splitlines({keep}) raised {type(e).__name__}: {e}")
+                        continue
+                    if got != txt.splitlines(keep):
+                        s.fail("C15.splitlines.boundary", dict(text=txt, keepends=keep, cut=cut, other_boundary=True,
+                                                              newline_only_answer=(got == newline_only(txt, keep))),
+                               f"splitlines({keep}) gives {got}, str gives {txt.splitlines(keep)}")
     s.done()
+
+
+def newline_only(txt, keep):
+    """what splitlines answers when '\\n' is the only line boundary (the recorded finding C15-other-line-boundaries: exactly this, no other, difference)"""
+    parts = txt.split("\n")
+    return [p + ("\n" if keep else "") for p in parts[:-1]] + ([parts[-1]] if parts[-1] else [])
 
 
 def derived(check, tier, seed):
